@@ -1012,15 +1012,22 @@ def oracle_local_copies(ctx: Ctx) -> None:
             # (d) content addressing over the WHOLE content: values of ~70 and ~200 thousand characters that differ only in their last
             #     characters (a series with different last samples, a log a few entries longer) get different references, each its own content
             if kind == "mem" or ser_name == "JsonSerializer":
-                for size in (70_000, 200_003):
-                    va, vb = "s" * size + "-tail-A", "s" * size + "-tail-B"
+                for size in (70_000, 200_003, 3_100_000):
+                    if size > 1_000_000:
+                        if ser_name != "JsonSerializer" or kind != "mem":
+                            continue
+                        # several MiB, equal length, equal beginning and end: the difference sits in the MIDDLE
+                        half = size // 2
+                        va, vb = "s" * half + "-mid-A" + "t" * half, "s" * half + "-mid-B" + "t" * half
+                    else:
+                        va, vb = "s" * size + "-tail-A", "s" * size + "-tail-B"
                     ra, rb = cds.serialize(va), cds.serialize(vb)
                     cds._deserialized_cache.clear()
                     ga, gb = cds.resolve(ra), cds.resolve(rb)
                     ctx.count()
                     ctx.distinct(("tail-differs", ser_name, kind, size))
                     if ra == rb or ga != va or gb != vb:
-                        ctx.report(f"different-content-same-reference:{ser_name}", f"[{kind}/{ser_name}] two values of {size + 7} characters that differ in their last character only: references "
+                        ctx.report(f"different-content-same-reference:{ser_name}", f"[{kind}/{ser_name}] two values of {size + 7} characters that differ in {'their last character' if size < 1_000_000 else 'one character in the middle'} only: references "
                                                                                    f"{'EQUAL' if ra == rb else 'differ'}; the first resolves to …{str(ga)[-8:]!r}, the second to …{str(gb)[-8:]!r}", rep)
             # (c) 40 levels of nesting through arguments and results
             task = app.task(T.ident)
